@@ -16,7 +16,7 @@ THOROUGH_SCALE = 3
 def J(name, wl, quick, thorough, **params):
     d = {"name": name, "wl": wl, "quick": int(quick * QUICK_SCALE), "thorough": int(thorough * THOROUGH_SCALE), "params": {}}
     for k, v in params.items():
-        if k in ("limits", "time_ms", "fork_each"):
+        if k in ("limits", "time_ms", "fork_each", "no_twins"):
             d[k] = v
         else:
             d["params"][k] = v
@@ -29,7 +29,7 @@ def with_hb(jobs, share=0.3):
     Every main job therefore gets a smaller twin with the detector switched on."""
     out = list(jobs)
     for j in jobs:
-        if j["params"].get("races") or j.get("fork_each"):
+        if j["params"].get("races") or j.get("fork_each") or j.get("no_twins"):
             continue
         t = {k: (dict(v) if isinstance(v, dict) else v) for k, v in j.items()}
         t["name"] = j["name"] + ".hb"
@@ -46,7 +46,7 @@ def with_gcc(jobs, share=0.25):
     (`new T{x}` vs `new T(x)`) turned out to change behaviour under g++ only (CWG 2137)."""
     out = list(jobs)
     for j in jobs:
-        if j["name"].endswith(".hb") or j.get("cxx"):
+        if j["name"].endswith(".hb") or j.get("cxx") or j.get("no_twins"):
             continue  # (C07's own jobs do get a twin: the race detector then sees g++'s instrumentation)
         t = {k: (dict(v) if isinstance(v, dict) else v) for k, v in j.items()}
         t["name"] = j["name"] + ".gcc"
@@ -79,9 +79,19 @@ PROPS_RAW = {
                      J("trigger.races", "wl_trigger", 40000, 1000000, races=1),
                      J("soh.races", "wl_soh", 40000, 1000000, mode="std", races=1),
                      J("dobj.races", "wl_dobj", 30000, 800000, races=1),
-                     J("dd.races", "wl_dd", 40000, 1000000, single=0, races=1)] +
+                     J("dd.races", "wl_dd", 40000, 1000000, single=0, races=1),
+                     # error paths are part of "every access the library grants": the same
+                     # programs with throwing user code (roll-back / repair code of lr_guarded,
+                     # unwinding through handles and guards)
+                     J("lr.throw.races", "wl_lr", 40000, 1000000, mode="throw", races=1),
+                     J("cow.throw.races", "wl_cow", 30000, 800000, mode="throw", races=1),
+                     J("deferred.throw.races", "wl_deferred", 30000, 800000, mode="throw", races=1),
+                     J("dd.throw.races", "wl_dd", 20000, 500000, mode="throw", races=1),
+                     J("soh.throw.races", "wl_soh", 20000, 500000, mode="throw", races=1)] +
             wrappers("rw", ["guarded", "guarded_opt", "shared_guarded", "shared_guarded_opt",
-                            "ordered_guarded", "atomic_guarded"], 30000, 800000, races=1)},
+                            "ordered_guarded", "atomic_guarded"], 30000, 800000, races=1) +
+            wrappers("throw", ["guarded", "shared_guarded", "ordered_guarded", "atomic_guarded"],
+                     15000, 400000, races=1)},
     "C08": {"jobs": wrappers("handle", ["guarded", "guarded_opt", "shared_guarded",
                                         "shared_guarded_opt", "ordered_guarded", "deferred_rw"],
                              80000, 2000000) +
@@ -98,12 +108,18 @@ PROPS_RAW = {
                      # an unordered reader/writer pair on the payload is a C03 violation too
                      J("lr.mm", "wl_lr", 100000, 3000000, mode="std", races=1),
                      # slow-node fault: a reader parked inside lock_shared while writers run
-                     J("lr.rstall", "wl_lr", 100000, 3000000, mode="rstall")]},
+                     J("lr.rstall", "wl_lr", 100000, 3000000, mode="rstall"),
+                     # counter-width boundary: one thread holding 2 .. 131072 shared handles
+                     # (long runs: few of them, own step limits, no twins)
+                     J("lr.many", "wl_lr", 64, 600, mode="many", plain=0, limits=(1500000, 2500000),
+                       no_twins=1)]},
     "C04": {"jobs": [J("cow.std", "wl_cow", 150000, 4000000, mode="std")]},
     "C05": {"jobs": [J("rcu.std", "wl_rcu", 120000, 3000000, mode="std", elem=0),
                      J("rcu.std.string", "wl_rcu", 40000, 1000000, mode="std", elem=1),
                      # handles and iterators taken while a writer is parked inside push/erase
-                     J("rcu.window", "wl_rcu", 60000, 1500000, mode="window", elem=0)]},
+                     J("rcu.window", "wl_rcu", 60000, 1500000, mode="window", elem=0),
+                     # fault: failing allocations inside push / erase / handle registration
+                     J("rcu.oom", "wl_rcu", 40000, 1000000, mode="std", elem=0, oom=1, alloc=0)]},
     "C06": {"jobs": [J("deferred", "wl_deferred", 200000, 5000000)]},
     "C09": {"jobs": [J("barrier", "wl_barrier", 300000, 8000000)]},
     "C10": {"jobs": [J("latch", "wl_latch", 300000, 8000000)]},
@@ -118,7 +134,11 @@ PROPS_RAW = {
                      J("rcu.reenter", "wl_rcu_reent", 30000, 800000)]},
     "C13": {"jobs": [J("rcu.c13.tracked", "wl_rcu", 60000, 1500000, mode="c13", elem=0),
                      J("rcu.c13.string", "wl_rcu", 60000, 1500000, mode="c13", elem=1),
-                     J("rcu.c13.blob", "wl_rcu", 40000, 1000000, mode="c13", elem=2)]},
+                     J("rcu.c13.blob", "wl_rcu", 40000, 1000000, mode="c13", elem=2),
+                     # fault: the allocator handed to the list fails (std::bad_alloc) at arbitrary
+                     # allocations — nodes, zombie records, handle registrations
+                     J("rcu.c13.oom", "wl_rcu", 40000, 1000000, mode="c13", elem=0, oom=1, alloc=0),
+                     J("rcu.c13.oom.string", "wl_rcu", 20000, 500000, mode="c13", elem=1, oom=1, alloc=0)]},
     "C14": {"jobs": [J("lr.freeze", "wl_lr", 60000, 1500000, mode="freeze"),
                      J("lr.overlap", "wl_lr", 20000, 500000, mode="overlap"),
                      # writers must complete once handles are released: mixed readers (all
@@ -149,7 +169,7 @@ PROPS_RAW = {
 
 # properties whose main jobs get a happens-before twin (C03, C07, C16-C19 have theirs spelled out)
 PROPS = dict(PROPS_RAW)
-for _p in ("C01", "C02", "C04", "C05", "C06", "C09", "C10", "C11", "C12", "C13", "C15"):
+for _p in ("C01", "C02", "C04", "C05", "C06", "C09", "C10", "C11", "C12", "C13", "C15", "C20"):
     PROPS[_p] = dict(PROPS_RAW[_p], jobs=with_hb(PROPS_RAW[_p]["jobs"]))
 for _p in list(PROPS):
     PROPS[_p] = dict(PROPS[_p], jobs=with_gcc(PROPS[_p]["jobs"]))
